@@ -109,7 +109,7 @@ def check(ctx):
         "temporary files; model/Json.v and model/Printer.v compared with the implementation inside Coq (dictionaries exactly, "
         "strings character by character, %.4g on doubles across decades, ties and the fixed/scientific switch-over). "
         "non-trivial = the contract has at least one constraint; distinct by canonical contract")
-    proved = ctx.prove("props/C10.v", ["proofs/JsonFacts.v", "proofs/PrinterFacts.v", "proofs/JsonGenValidate.v", "proofs/JsonGenDict.v", "proofs/JsonGenFile.v"])
+    proved = ctx.prove("props/C10.v", ["proofs/JsonFacts.v", "proofs/PrinterFacts.v", "proofs/JsonGenValidate.v", "proofs/JsonGenDict.v", "proofs/JsonGenFile.v", "proofs/PrinterGenOpposite.v", "proofs/PrinterGenLhs.v", "proofs/PrinterGenFold.v"])
     proved = ctx.prove("props/C10b.v", ["proofs/RoundTripFacts.v"]) and proved      # the string half: printed strings read back
     ctx.build(["model/Json.vo", "model/Printer.vo"])
     rng = random.Random(ctx.seed + 10)
